@@ -246,6 +246,8 @@ def main(argv=None):
         "inconclusive_notes": [m[:300] for m in inconcl[:8]],
         "oracle_selftest": [s.get("info") for s in selftests if s["selftest"] == "ok"][:1],
         "repo_under_test": os.environ.get("JINNS_VERIF_REPO", "/repo"),
+        "slowest_cases_s": [[r.get("wall_s"), {k: v for k, v in r["case"].items() if not isinstance(v, (list, dict))}]
+                            for r in sorted(results, key=lambda r: -r.get("wall_s", 0))[:3]],
     }
     summ = getattr(mod, "summarize", None)
     if summ is not None:
